@@ -673,7 +673,7 @@ def draw_cfg(t, prop, nfiles):
         "precb": t.chance(1, 2, "precb"),
         "tools": t.chance(1, 5, "tools"),
         "memo": t.chance(1, 5, "memo"),
-        "global_repo": t.chance(1, 3, "global-repo"),
+        "global_repo": t.chance(1, 2 if prop == "C13" else 3, "global-repo"),
         "grammar_files": t.chance(1, 5, "grammar-in-several-files"),
         "prim_root": bool(classes) and t.chance(1, 8, "primitive-root-rule"),
         "prim_root_kind": t.pick(["int", "decimal", "tuple", "frozenset"], "primitive-root-kind"),
@@ -772,7 +772,7 @@ def run(ctx):
         ctx.nontrivial = bool(e1.rec.objprocs) and (e1.sched.postponements > 0 or nfiles > 1 or bool(e1.rec.replaced))
         if e1.rec.replaced:
             ctx.probe("replacement")
-        if not (cfg["global_repo"] and t.chance(1, 2, "c13-after-a-failed-load")):
+        if not (cfg["global_repo"] and t.chance(2, 3, "c13-after-a-failed-load")):
             return
         # the processors must also run once per object in the load *after* a load that failed late
     if prop == "C14" and not t.chance(2, 5, "c14-fault-path"):
@@ -826,7 +826,9 @@ def draw_fault(t, prop, counts, w, refs, cfg):
     cb = [s for s in CALLBACK_SITES if counts.get(s)]
     options = [("callback", s) for s in cb] + [("input", k) for k in INPUT_FAULTS]
     if prop == "C13":
-        options = [("callback", s) for s in cb if s in ("objproc", "modelproc", "init")]
+        # (object processors twice: the late failure that leaves every model of the load finished but unprocessed)
+        options = [("callback", s) for s in cb if s in ("objproc", "objproc", "modelproc", "init")] + \
+            ([("callback", "objproc")] if "objproc" in cb else [])
         if not options:
             return None
     if prop == "C14" and not cfg["global_repo"]:
